@@ -30,8 +30,9 @@ import (
 // A REAL node (fixture.go) in two states is driven through the real mux with every request of the product
 // (c28_alphabet.go).  All requests run in worker subprocesses that stream "started"/"result" lines, so a panic is
 // an observation with its stack, and a worker death or a missed deadline is attributed to the request that was
-// running.  Requests that succeed in changing the node's state are followed by a fresh copy of the fixture; in the
-// thorough tier every single-parameter read request is first repeated on the changed node (depth 2).
+// running.  Requests that succeed in changing the node's state are followed by a fresh copy of the fixture (depth 1);
+// in the thorough tier each such state change is then performed again on a fresh copy and EVERY read request of the
+// product is repeated on the changed node (depth 2; only abnormal answers are reported in full, the rest is counted).
 func init() {
 	register("C28", "exploration", c28)
 	workers["c28"] = c28Worker
@@ -196,6 +197,11 @@ func c28Worker(args []string) {
 		w.Write(b)
 		w.WriteString("\n")
 	}
+	if job.Depth2 {
+		c28Depth2(w, g, job, byID, readSingles, &n, reset, emit)
+		fmt.Fprintf(w, "E\n")
+		return
+	}
 	for _, id := range job.IDs {
 		q := byID[id]
 		if q == nil {
@@ -210,7 +216,7 @@ func c28Worker(args []string) {
 		o.Micros = time.Since(t0).Microseconds()
 		changed := o.Panic != "" || (q.Mut && o.Status >= 200 && o.Status < 300)
 		o.Reset = changed
-		if changed && !job.Depth2 {
+		if changed {
 			t1 := time.Now()
 			if err := reset(); err != nil {
 				fmt.Fprintf(w, "B reopen fixture: %v\n", err)
@@ -221,26 +227,67 @@ func c28Worker(args []string) {
 			continue
 		}
 		emit(o)
-		if changed {
-			if job.Depth2 && o.Panic == "" {
-				for _, rq := range readSingles {
-					fmt.Fprintf(w, "S %d %d\n", rq.ID, id)
-					w.Flush()
-					o2 := c28Exec(n, g.Route(rq.Path), rq)
-					o2.After = id
-					emit(o2)
-					if o2.Panic != "" {
-						break // the node may hold locks now; go on with a fresh copy
-					}
-				}
-			}
-			if err := reset(); err != nil {
-				fmt.Fprintf(w, "B reopen fixture: %v\n", err)
-				return
-			}
-		}
 	}
 	fmt.Fprintf(w, "E\n")
+}
+
+// c28Agg summarises the well-formed answers of the reads repeated after one state-changing request (depth 2).
+type c28Agg struct {
+	After  int            `json:"after"`
+	N      int            `json:"n"`
+	Status map[string]int `json:"status"`
+	Redone bool           `json:"redone"` // the state-changing request succeeded again on the fresh copy
+}
+
+// c28Depth2: for every id (a state-changing request that succeeded at depth 1): fresh fixture, perform it again, then
+// repeat every read request on the changed node.  Only abnormal observations are reported in full.
+func c28Depth2(w *bufio.Writer, g *apimodel.Golden, job c28Job, byID map[int]*c28Req, reads []*c28Req, n **node, reset func() error, emit func(c28Obs)) {
+	for _, id := range job.IDs {
+		q := byID[id]
+		if q == nil {
+			fmt.Fprintf(w, "B unknown request id %d\n", id)
+			return
+		}
+		redo := func() (bool, error) {
+			if err := reset(); err != nil {
+				return false, err
+			}
+			o := c28Exec(*n, g.Route(q.Path), q)
+			return o.Panic == "" && o.Status >= 200 && o.Status < 300, nil
+		}
+		fmt.Fprintf(w, "S %d %d\n", id, id)
+		w.Flush()
+		ok, err := redo()
+		if err != nil {
+			fmt.Fprintf(w, "B reopen fixture: %v\n", err)
+			return
+		}
+		agg := c28Agg{After: id, Status: map[string]int{}, Redone: ok}
+		if ok {
+			for _, rq := range reads {
+				fmt.Fprintf(w, "S %d %d\n", rq.ID, id)
+				w.Flush()
+				o2 := c28Exec(*n, g.Route(rq.Path), rq)
+				o2.After = id
+				if o2.Panic != "" || !o2.BodyOK {
+					emit(o2)
+					if o2.Panic != "" {
+						// the node may hold locks now: fresh copy, same state change, go on with the next read
+						if ok2, err := redo(); err != nil || !ok2 {
+							break
+						}
+					}
+					continue
+				}
+				agg.N++
+				agg.Status[fmt.Sprint(o2.Status)]++
+			}
+		}
+		b, _ := json.Marshal(agg)
+		w.WriteString("D ")
+		w.Write(b)
+		w.WriteString("\n")
+	}
 }
 
 func c28FirstID(state string) int {
@@ -252,7 +299,7 @@ func c28FirstID(state string) int {
 
 // c28RunShard runs the ids in worker subprocesses until all are done; a death or timeout is attributed to the request
 // that had been started last, recorded, and the rest continues in a new worker.
-func c28RunShard(job c28Job, byID map[int]*c28Req, deadline time.Duration, vmemKiB int, onObs func(c28Obs), onDeath func(id, after int, kind, detail string), onBroken func(string)) {
+func c28RunShard(job c28Job, byID map[int]*c28Req, deadline time.Duration, vmemKiB int, onObs func(c28Obs), onAgg func(c28Agg), onDeath func(id, after int, kind, detail string), onBroken func(string)) {
 	ids := job.IDs
 	for len(ids) > 0 {
 		job.IDs = ids
@@ -285,6 +332,15 @@ func c28RunShard(job c28Job, byID map[int]*c28Req, deadline time.Duration, vmemK
 					done[o.ID] = true
 				}
 				onObs(o)
+			case strings.HasPrefix(l, "D "):
+				var a c28Agg
+				if err := json.Unmarshal([]byte(l[2:]), &a); err != nil {
+					onBroken("worker summary line: " + err.Error())
+					return
+				}
+				pending = false
+				done[a.After] = true
+				onAgg(a)
 			case strings.HasPrefix(l, "B "):
 				onBroken("worker: " + l[2:])
 				return
@@ -390,14 +446,6 @@ func c28(r *engine.Run) {
 	for _, st := range states {
 		bins := make([][]int, per)
 		k := 0
-		var reads []c28Req
-		if r.Thorough() {
-			for i := range reqs[st] {
-				if q := &reqs[st][i]; !q.Mut && q.Single && !q.Danger {
-					reads = append(reads, *q)
-				}
-			}
-		}
 		for i := range reqs[st] {
 			q := &reqs[st][i]
 			if q.Danger {
@@ -414,7 +462,7 @@ func c28(r *engine.Run) {
 				continue
 			}
 			wi++
-			shards = append(shards, shard{job: c28Job{State: st, Pristine: filepath.Join(scratch, "fx-"+st), Work: filepath.Join(scratch, fmt.Sprintf("w%d", wi)), IDs: b, Depth2: r.Thorough(), Reads: reads, CPUSecs: uint64(r.Pick(300, 3000))},
+			shards = append(shards, shard{job: c28Job{State: st, Pristine: filepath.Join(scratch, "fx-"+st), Work: filepath.Join(scratch, fmt.Sprintf("w%d", wi)), IDs: b, CPUSecs: uint64(r.Pick(300, 3000))},
 				deadline: time.Duration(r.Pick(900, 3600)) * time.Second})
 		}
 	}
@@ -438,6 +486,8 @@ func c28(r *engine.Run) {
 	}
 	var viols []viol
 	fiveXX := map[string]int{}
+	abnormal := map[int]bool{}  // requests that panicked / answered badly / killed a worker at depth 1
+	changedOK := map[int]bool{} // state-changing requests that succeeded at depth 1
 	timeEP := map[string]int64{}
 	var timeReset int64
 	executed := map[int]bool{}
@@ -457,6 +507,13 @@ func c28(r *engine.Run) {
 		}
 		if o.Reset {
 			resets++
+		}
+		if o.After == 0 {
+			if o.Panic != "" || !o.BodyOK {
+				abnormal[o.ID] = true
+			} else if o.Reset && q.Mut {
+				changedOK[o.ID] = true
+			}
 		}
 		perEndpoint[ep]++
 		timeEP[ep] += o.Micros
@@ -507,6 +564,7 @@ func c28(r *engine.Run) {
 		ep := q.Method + " " + q.Path
 		status[d.kind]++
 		executed[d.id] = true
+		abnormal[d.id] = true
 		evals++
 		if len(q.Classes) > 0 {
 			distinct.Add(q.State + "|" + ep + "|" + q.classKey())
@@ -520,11 +578,69 @@ func c28(r *engine.Run) {
 		defer mu.Unlock()
 		r.Broken("%s", b)
 	}
+	redone, notRedone := 0, 0
+	onAgg := func(a c28Agg) {
+		mu.Lock()
+		defer mu.Unlock()
+		if a.Redone {
+			redone++
+		} else {
+			notRedone++
+		}
+		evals2 += a.N
+		for k, v := range a.Status {
+			status[k] += v
+		}
+	}
 	engine.ParForN(nw, len(shards), func(i int) {
 		s := shards[i]
-		c28RunShard(s.job, byID, s.deadline, 4<<20, onObs, onDeath, onBroken)
+		c28RunShard(s.job, byID, s.deadline, 4<<20, onObs, onAgg, onDeath, onBroken)
 		dbg(fmt.Sprintf("shard %d done (%d ids, danger=%v)", i, len(s.job.IDs), s.danger))
 	})
+
+	dbg("depth 1 done")
+	// depth 2 (thorough): every read request is repeated after each state-changing request that succeeded at depth 1
+	reads2 := 0
+	if r.Thorough() {
+		var shards2 []shard
+		for _, st := range states {
+			var reads []c28Req
+			var muts []int
+			for i := range reqs[st] {
+				q := &reqs[st][i]
+				switch {
+				case q.Danger || abnormal[q.ID]:
+				case q.Mut:
+					if changedOK[q.ID] {
+						muts = append(muts, q.ID)
+					}
+				default:
+					reads = append(reads, *q)
+				}
+			}
+			reads2 += len(reads) * len(muts)
+			bins := make([][]int, per)
+			for i, id := range muts {
+				bins[i%per] = append(bins[i%per], id)
+			}
+			for _, b := range bins {
+				if len(b) == 0 {
+					continue
+				}
+				wi++
+				shards2 = append(shards2, shard{job: c28Job{State: st, Pristine: filepath.Join(scratch, "fx-"+st), Work: filepath.Join(scratch, fmt.Sprintf("w%d", wi)), IDs: b, Depth2: true, Reads: reads, CPUSecs: 6000},
+					deadline: 3600 * time.Second})
+			}
+		}
+		engine.ParForN(nw, len(shards2), func(i int) {
+			s := shards2[i]
+			c28RunShard(s.job, byID, s.deadline, 4<<20, onObs, onAgg, onDeath, onBroken)
+			dbg(fmt.Sprintf("depth-2 shard %d done (%d state changes)", i, len(s.job.IDs)))
+		})
+		if notRedone > 0 {
+			r.Broken("nondeterminism: %d state-changing requests that succeeded at depth 1 did not succeed again on a fresh copy", notRedone)
+		}
+	}
 
 	// signatures: per (endpoint, symptom, site, state) the minimal sets of off-base parameter classes that trigger it
 	groups := map[string][]viol{}
@@ -633,7 +749,7 @@ func c28(r *engine.Run) {
 	if resets < 10 {
 		r.Broken("vacuous: only %d state-changing requests succeeded", resets)
 	}
-	if r.Thorough() && evals2 == 0 {
+	if r.Thorough() && (evals2 == 0 || redone == 0) {
 		r.Broken("vacuous: no depth-2 request ran")
 	}
 	samples := []interface{}{}
@@ -658,6 +774,8 @@ func c28(r *engine.Run) {
 		"product: per endpoint the full product of the typed value sets for <= 3 parameters, all pairs of parameter values (others at their valid base) beyond; JSON endpoints carry a body-shape parameter; values that may exhaust the node (2^64-1 counts, 1e10000000 amounts) are tried alone, each in its own worker with a deadline",
 		"a 5xx answer is a well-formed response for this property (listed under five_xx); a 200 answer of a JSON endpoint must parse as JSON; v2 error bodies need not be JSON (README)",
 		"the fixture is re-created from the pristine copy after every request that changed state (2xx on a state-changing endpoint) or panicked",
+		"depth 2 (thorough): every state-changing request that succeeded at depth 1 is performed again on a fresh copy, then every read request of the product (except those already abnormal at depth 1 and the sandboxed ones) is repeated on the changed node",
+		"transaction signatures use the node's random nonces, so hashes differ from run to run; classes, verdicts and finding signatures do not",
 	)
 	type kv struct {
 		k string
